@@ -103,6 +103,10 @@ class Monitor:
             outs = _arrays_of(res, 'res')
             alias = False
             for _, ra in outs:
+                if ra.dtype.kind in 'iub':
+                    # the statement is about returned tensors (TT-cores or dense); an index
+                    # array handed back (core_dot_maxvol returns the `ind` it was given) is not one
+                    continue
                 for s in snap:
                     if s[0] == 'arr' and ra.size and s[2].size and np.shares_memory(ra, s[2]):
                         alias = True
@@ -176,7 +180,9 @@ def _calls(ctx, group, layout):
         QQ = _tt(ctx, 'qq', [2, 2], 2, layout)
         return [lambda: T.core_dot(G, R), lambda: T.core_dot(G, R, ltr=False), lambda: T.core_stab(G), lambda: T.core_stab(G, 3),
                 lambda: T.core_qtt_to_tt([Q0, Q1]), lambda: T.qtt_to_tt(QQ, 2),
-                lambda: T.core_qtt_to_tt([Q0]), lambda: T.qtt_to_tt(QQ, 1)]
+                lambda: T.core_qtt_to_tt([Q0]), lambda: T.qtt_to_tt(QQ, 1),
+                lambda: T.core_dot_inv(G, R), lambda: T.core_dot_inv(G, R, ltr=False),
+                lambda: T.core_dot_maxvol(G, R, ind=np.array([0, 3])), lambda: T.core_dot_maxvol(G, R, ind=np.array([1, 2]), ltr=False)]
     if group == 'tensors_grid':
         v = ctx.real('v')
         sh = _layout(vec(ctx, 's', 2), layout)
@@ -212,7 +218,8 @@ def _calls(ctx, group, layout):
                 lambda: T.func_get_full(xf, Af, -1., 1.), lambda: T.func_gets_full(Af, -1., 1.),
                 lambda: T.func_int_general(Y1, Xn, lambda q: T.func_basis(q, 2)),
                 lambda: T.func_sum(A3, av, bv), lambda: T.func_get(Xq, A3, av, bv),
-                lambda: T.func_sum_full(Af, -bv, bv), lambda: T.func_get_full(xf, Af, av, bv)]
+                lambda: T.func_sum_full(Af, -bv, bv), lambda: T.func_get_full(xf, Af, av, bv),
+                lambda: T.func_diff_matrix_apply(A3, Af, 'sin')]
     if group == 'anova_sample':
         I = np.array([[0, 0], [1, 1], [0, 1], [1, 0]])
         y = _layout(vec(ctx, 'ya', 4), layout)
@@ -228,7 +235,7 @@ def _calls(ctx, group, layout):
     raise KeyError(group)
 
 
-N_STEPS = {'act': 26, 'core': 8, 'tensors_grid': 16, 'func': 17, 'anova_sample': 4, 'optima': 5}
+N_STEPS = {'act': 26, 'core': 12, 'tensors_grid': 16, 'func': 18, 'anova_sample': 4, 'optima': 5}
 
 
 def h_templates(ctx, group, layout, step):
@@ -318,6 +325,14 @@ def h_concrete_layouts(ctx, layout):
         teneva.func_int_general(Y1, Xn, lambda q: teneva.func_basis(q, 4))
         It, idx, idm = teneva.sample_tt([3, 4, 3], 2, seed=8)
         teneva.svd_incomplete(It, L(teneva.get_many(Y, It)), idx, idm, 1e-10, 3)
+        Gc, Rc = L(rng.normal(size=(2, 3, 2))), L(rng.normal(size=(2, 2)))
+        teneva.core_qr_rand(Gc, 1, seed=1); teneva.core_qr_rand(Gc, 1, ltr=False, seed=1)
+        teneva.core_dot_maxvol(Gc, Rc); teneva.core_dot_maxvol(Gc, Rc, ltr=False)
+        teneva.cdf_confidence(L(rng.normal(size=10)))
+        Ap = [L(G) for G in teneva.rand([3, 3], 2, seed=11)]
+        teneva.sample_func(teneva.mul(Ap, Ap), seed=1)
+        teneva.optima_tt_maxvol(Y, 3)
+        teneva.cross_act(lambda X: X[:, 0] + X[:, 1], [Y, Y], [L(G) for G in teneva.rand([3, 4, 3], 2, seed=3)], nswp=1, seed=4)
     ctx.claim('monitored_calls', mon.calls > 0)
 
 
@@ -365,8 +380,8 @@ BOUNDS = {
              'layout sweep of the remaining routines on the real code',
     'thorough': 'same',
 }
-OUTSIDE = ('functions not reachable by the templates (getter: numba absent; cross_act, sample_func, optima_tt_maxvol, '
-           'core_qr_rand, ANOVA.sample / save / load); aliasing created inside the real LAPACK/BLAS wrappers other than through '
+OUTSIDE = ('functions not reachable by the templates (getter: numba absent; ANOVA.sample / save / load; cross_act, sample_func, '
+           'optima_tt_maxvol, core_qr_rand, cdf_confidence only in the concrete layout sweep); aliasing created inside the real LAPACK/BLAS wrappers other than through '
            'documented overwrite flags')
 ASSUMPTIONS = ['scipy.linalg.lstsq(overwrite_a/b=True) may destroy the passed buffer (documented contract; modelled by poisoning)',
                'documented exceptions: inplace flag, info / cache dictionaries, pass-through helpers grid_prep_opt(s), core_stab, copy']
